@@ -2599,8 +2599,13 @@ impl HnswBackend {
         store.metadata[internal_id].clear();
         drop(store);
 
-        let mut meta_index = self.metadata_index.write();
-        meta_index.remove_doc(internal_id as u64, &old_metadata);
+        {
+            // Scoped: this guard must not stay alive across create_snapshot() below, which
+            // waits for snapshot_lock while a concurrent writer holding snapshot_lock.read()
+            // waits for metadata_index.
+            let mut meta_index = self.metadata_index.write();
+            meta_index.remove_doc(internal_id as u64, &old_metadata);
+        }
 
         drop(write_gate_guard);
         drop(snapshot_guard);
